@@ -143,7 +143,14 @@ class LoopCut:
         self._prefix.__kwdefaults__ = self.func.__kwdefaults__
 
     # ---- execution
+    INJECTED = []
+    EXTRA_KWARGS = {}  # effect obligations (C16) inject e.g. random_state into every cut function that has the parameter
+
     def prefix(self, *args, **kwargs):
+        for k, v in LoopCut.EXTRA_KWARGS.items():
+            if k in self.params:  # overrides an explicit value of the call site
+                kwargs[k] = v
+                LoopCut.INJECTED.append((self.func.__qualname__, k))
         r = self._prefix(*args, **kwargs)
         if isinstance(r, tuple) and len(r) == 2 and r[0] == "state":
             return r[1]
